@@ -8,4 +8,28 @@ CHECKS = {
  'C01': dict(level='exploration', technique='property-based testing: Hypothesis-generated adversarial text, round-trip/tiling oracle, 16 shards',
    text='Generated-input search (tens of thousands of adversarial texts per run x 9 versions x str/bytes) against an exact round-trip and per-subtree slice oracle computed from running offsets; exploration, not proof.',
    note='Assumes CPython str operations; bytes inputs limited to UTF-8 (decoding rules are C15).'),
+ 'C02': dict(level='exploration', technique='property-based testing: nesting builders bounded at depth 100 + token soups, totality and shape predicates, deterministic termination budget',
+   text='Generated search over texts of bounded nesting (depth-100 ladders of every opener/block kind enumerated, random nesting mixes, token soups, mutated real code) with a totality/shape oracle; termination decided by a line-event budget, not wall clock.',
+   note='Depth bound holds by construction of the builders; RecursionError counts only within 950 frames of head-room above the call.'),
+ 'C03': dict(level='exploration', technique='property-based testing against an independent character-level position walker',
+   text='Every leaf/node position of every generated tree compared with a reference walker that knows only the three Python line breaks and the zero-width BOM.',
+   note='Zero-width indentation leaves read as in DESIGN 2/C03: empty, located at the start of the next real leaf value.'),
+ 'C07': dict(level='exploration', technique='differential property-based testing: strict vs recovering parser on generated texts',
+   text='Strict and recovering parses of each generated text compared: raise iff error in tree, identical trees otherwise, same first error token.',
+   note='First error = minimum by position over error leaves and leaves following error nodes at every depth.'),
+ 'C09': dict(level='exploration', technique='property-based testing: tokenizer tiling/position/balance/purity predicates and prefix-part walker on generated texts',
+   text='Token streams and prefix parts of generated adversarial texts (f-string interiors, non-Python whitespace, BOM) checked against tiling, reference positions, INDENT/DEDENT balance and a purity grammar for prefixes.',
+   note='Token.end_pos is outside the statement.'),
+ 'C11': dict(level='exploration', technique='property-based testing: navigation API vs in-order leaf list, every position of every generated text',
+   text='For each generated tree all nodes, leaves and all (line, column) positions are compared with an in-order leaf list computed by own descent (identity comparisons).',
+   note='Per-tree exhaustive over positions; trees are sampled.'),
+ 'C13': dict(level='exploration', technique='property-based testing: totality/purity/determinism and error-coverage predicates on iter_errors over generated trees',
+   text='iter_errors run on trees of generated adversarial texts; well-formedness, one-per-line, coverage of every recorded tree error, purity and determinism are checked.',
+   note='Error-node reporting line admits the documented f-string placement for >= 3.9 (DESIGN 2/C13).'),
+ 'C19': dict(level='exploration', technique='property-based testing: pickle / dump-eval round trips and refactor splice vs offset model',
+   text='Round trips through pickle (all protocols) and eval(dump(indent)) compared with an own structural comparator; refactor compared with a text splice computed from running offsets for drawn antichains of nodes.',
+   note='Empty-span targets (zero-width leaves) are not used as refactoring targets.'),
+ 'C20': dict(level='exploration', technique='property-based testing: totality with crash bucketing, well-formedness, determinism, provenance differential (fresh / diff_cache / pickle), W292 exactness',
+   text='PEP 8 checker run on generated trees x 7 configurations; crashes bucketed by call site against known_findings.json, issue well-formedness, stability across calls and provenances, exact W292.',
+   note='Nine crash call sites are carried as listed findings (KNOWN-FINDING lines); anything else is a violation.'),
 }
